@@ -199,6 +199,10 @@ def shape_of(x):
 def all_null(x):
     if x is None:
         return True
+    if isinstance(x, (str, bytes)):
+        return False            # the TEXT 'nan' is data, not a missing value
+    if isinstance(x, np.ndarray) and x.dtype.kind in "US":
+        return False
     try:
         arr = np.asarray(x, dtype=float)
     except (TypeError, ValueError):
